@@ -53,11 +53,19 @@ static Result run_c06(const Case &c) {
     for (int x : X) xm |= 1ull << x;
     bool within = (int)(R.size() + X.size()) <= t;
     // exact-size inputs and output (what test/ allocates: n ints)
-    int *rl = (int *)malloc(sizeof(int) * (R.size() + 1)), *xl = (int *)malloc(sizeof(int) * (X.size() + 1));
+    // overlap (matrix codes only - they work on the union of the two lists; the flat-XOR planner counts entries): the
+    // exclude list as PASSED also names a fragment that is to be rebuilt (as the repository's own test does) and/or
+    // repeats one of its entries; the sets R and X, and with them the oracle, stay what they are
+    std::vector<int> Xpass = X;
+    int overlap = g.backend == ref::B_XOR ? 0 : (int)c.get("overlap", 0);
+    if (overlap & 1) Xpass.insert(Xpass.begin() + (overlap >> 2) % (Xpass.size() + 1), R[(overlap >> 4) % R.size()]);
+    if ((overlap & 2) && !X.empty()) Xpass.push_back(X[(overlap >> 4) % X.size()]);
+    if (overlap && Xpass.size() != X.size()) r.cls("exclude_list_overlaps_or_repeats");
+    int *rl = (int *)malloc(sizeof(int) * (R.size() + 1)), *xl = (int *)malloc(sizeof(int) * (Xpass.size() + 1));
     for (size_t i = 0; i < R.size(); i++) rl[i] = R[i];
     rl[R.size()] = -1;
-    for (size_t i = 0; i < X.size(); i++) xl[i] = X[i];
-    xl[X.size()] = -1;
+    for (size_t i = 0; i < Xpass.size(); i++) xl[i] = Xpass[i];
+    xl[Xpass.size()] = -1;
     const int SENT = 0x5a5a5a5a;
     int *out = (int *)malloc(sizeof(int) * n);
     for (int i = 0; i < n; i++) out[i] = SENT;
@@ -65,10 +73,30 @@ static Result run_c06(const Case &c) {
     // created after it - alive or already destroyed again at the time of the query - changes nothing
     std::unique_ptr<Instance> sib;
     if (c.get("sib", -1) >= 0) { sib = make_sibling(g, (int)c.get("sib"), r); if (!c.get("sib_keep", 0)) sib.reset(); }
+    // a query answered just before on the same descriptor (same first index and same union of the two lists, split
+    // differently between rebuild and exclude) changes nothing
+    if (int pq = (int)c.get("prevq", 0)) {
+        std::vector<int> pr, px;
+        std::vector<int> uni(R.begin(), R.end()); uni.insert(uni.end(), X.begin(), X.end());
+        switch (pq) {
+        case 1: pr = {R[0]}; px.assign(uni.begin() + 1, uni.end()); break;                 // only the first one to rebuild, the rest excluded
+        case 2: pr = uni; break;                                                          // everything to rebuild
+        case 3: pr.assign(R.rbegin(), R.rend()); px.assign(X.rbegin(), X.rend()); break;   // same split, reversed lists
+        default: pr = {uni.back()}; px.assign(uni.begin(), uni.end() - 1); break;
+        }
+        pr.push_back(-1); px.push_back(-1);
+        std::vector<int> po(n + 1, -1);
+        int *prl = (int *)malloc(sizeof(int) * pr.size()), *pxl = (int *)malloc(sizeof(int) * px.size()), *pol = (int *)malloc(sizeof(int) * n);
+        memcpy(prl, pr.data(), sizeof(int) * pr.size()); memcpy(pxl, px.data(), sizeof(int) * px.size());
+        for (int i = 0; i < n; i++) pol[i] = -1;
+        liberasurecode_fragments_needed(cx.in->desc, prl, pxl, pol);
+        free(prl); free(pxl); free(pol);
+        r.cls("previous_query_same_union");
+    }
     int rc = liberasurecode_fragments_needed(cx.in->desc, rl, xl, out);
     sib.reset();
     for (size_t i = 0; i < R.size(); i++) if (rl[i] != R[i]) r.fail("fragments_to_reconstruct list modified");
-    for (size_t i = 0; i < X.size(); i++) if (xl[i] != X[i]) r.fail("fragments_to_exclude list modified");
+    for (size_t i = 0; i < Xpass.size(); i++) if (xl[i] != Xpass[i]) r.fail("fragments_to_exclude list modified");
     std::vector<int> N;
     bool terminated = false;
     for (int i = 0; i < n; i++) { if (out[i] == -1) { terminated = true; break; } N.push_back(out[i]); }
@@ -145,6 +173,8 @@ static void emit(const Config &g, const std::vector<int> &R, const std::vector<i
     Case c; cfg_to(c, g); c.setv("R", R); c.setv("X", X);
     static int emitted = 0;
     if ((++emitted % 4) == 0) { c.set("sib", emitted / 4 * 8 + (emitted / 4) % 8); c.set("sib_keep", (emitted / 4) & 1); }
+    if ((emitted % 3) == 1) c.set("prevq", 1 + (emitted / 3) % 4);
+    if ((emitted % 5) >= 3) c.set("overlap", 1 + emitted % 255);
     sweep_case(c, run_c06_nt);
 }
 // all disjoint (R != {}, X) with |R|+|X| <= limit, both list orders
@@ -219,6 +249,8 @@ static Case gen_c06() {
     std::vector<int> R(all.begin(), all.begin() + nr), X(all.begin() + nr, all.begin() + tot);
     c.setv("R", R); c.setv("X", X);
     if (coin(1, 3)) { c.set("sib", pick(0, 1 << 12)); c.set("sib_keep", coin() ? 1 : 0); }
+    if (coin(1, 3)) c.set("prevq", pick(1, 4));
+    if (coin(1, 3)) c.set("overlap", pick(1, 255));
     return c;
 }
 
